@@ -54,6 +54,7 @@ Code(t) == prog[t]
 AllOps == UNION {{Code(t)[i] : i \in 1..Len(Code(t))} : t \in Thr}
 Atoms == {i.o : i \in {j \in AllOps : j.op \in {"ld", "st"}}}
 Mtxs == {i.o : i \in {j \in AllOps : j.op \in {"lock", "unlock", "trylock", "tunlock"}}}
+Ntfs == {i.o : i \in {j \in AllOps : j.op = "ntf"}}         \* the Notify of a JoinHandle: notified once, by the ending thread
 BoundOf(i) == IF BoundList[i] = 99 THEN -1 ELSE BoundList[i]
 StVal(t, i) == 10 * t + i                      \* every store writes its own value
 
@@ -66,7 +67,7 @@ Ex0 == [pc |-> [t \in Thr |-> 1],
         active |-> 1,
         val |-> [o \in Atoms |-> 0],
         holder |-> [m \in Mtxs |-> 0],
-        la |-> [o \in Atoms \cup Mtxs |-> NoAcc],          \* last_access
+        la |-> [o \in Atoms \cup Mtxs \cup Ntfs |-> NoAcc],          \* last_access
         ls |-> [o \in Atoms |-> NoAcc],                      \* last_non_load_access
         ll |-> [o \in Atoms |-> [t \in Thr |-> NoAcc]],      \* last_load_accesses
         regs |-> [t \in Thr |-> <<>>],
@@ -175,6 +176,7 @@ Perform(e, t) ==
     [] ins.op = "lock"    -> [Acquire(e, t, ins.o) EXCEPT !.pc[t] = @ + 1]
     [] ins.op = "trylock" -> IF e.holder[ins.o] # 0 THEN [e EXCEPT !.regs[t] = Append(@, 0), !.pc[t] = @ + 1]
                              ELSE [Acquire(e, t, ins.o) EXCEPT !.regs[t] = Append(@, 1), !.pc[t] = @ + 1]
+    [] ins.op = "ntf"     -> [e EXCEPT !.pc[t] = @ + 1]
     [] OTHER              -> e
 
 (* --------------------------------------------------- reference semantics *)
